@@ -130,6 +130,9 @@ func cmdFunc(args []string) int {
 		dischargeAll([]*vc{v}, v.obls, owner, solveOpts{timeoutS: *timeout}, work)
 		for _, ob := range v.obls {
 			ok := ob.status == "unsat" && !ob.cover || ob.status == "sat" && ob.cover
+			if ob.cover && ob.status == "unsat" && v.fc != nil && v.fc.expectFail["cover:"+ob.label] {
+				ok = true
+			}
 			mark := "ok  "
 			if !ok {
 				mark = "FAIL"
@@ -302,6 +305,8 @@ func cmdCheck(args []string) int {
 			covers++
 			if ob.status == "sat" {
 				coversOK++
+			} else if owner[ob].fc != nil && owner[ob].fc.expectFail["cover:"+ob.label] && ob.status == "unsat" {
+				coversOK++ // declared dead code
 			} else {
 				fmt.Printf("BROKEN-CHECK: vacuity guard %s is not satisfiable (%s): contradictory contract or model\n", ob.name, ob.status)
 				rc = 2
